@@ -765,6 +765,39 @@ func propC04(w *World, r *Report) {
 			r.Fail("S3", construct, w.InstrPos(ev.Instr), "the consecutive-motion counter is reset on a refusal edge (a refused start would not be retried on the next motion frame): "+describeCtx(bad), bad.Trace)
 		}
 	}
+	// S3c: a run of motion is counted from the end of the previous recording: whenever a call really stopped the motion
+	// recording (at its length, on a rejected frame, on a camera reset, after a failure) the consecutive-motion counter
+	// is zero when that call returns. Otherwise a recording cut while the motion goes on would be followed by one that
+	// starts on a single motion frame instead of after trigger-frames of them.
+	{
+		name := "the consecutive-motion counter is zero when a call that stopped the recording returns"
+		if !c.Counter[fiTrig] && c.Tracked[fiTrig] == tNone {
+			r.Fail("S3", name, "-", "the consecutive-motion counter "+roles.Trig+" is never reset to the constant 0", "")
+		} else {
+			n := 0
+			var bad *Ctx
+			for _, cx := range exitCtxs(run) {
+				if cx.Ghosts["stop:motion"] < 1 || cx.Sinks[roleMotion] != 0 {
+					continue
+				}
+				n++
+				zero := false
+				if c.Counter[fiTrig] {
+					zero = cx.Pers["nz:"+roles.Trig] == 0
+				} else {
+					zero = cx.Fields[roles.Trig] == "0"
+				}
+				if !zero && bad == nil {
+					bad = cx
+				}
+			}
+			if bad != nil {
+				r.Fail("S3", name, "-", "a call ends the motion recording and returns with "+roles.Trig+" still holding the motion run counted during that recording (the next recording would start before trigger-frames new motion frames): "+describeCtx(bad), bad.Trace)
+			} else {
+				r.Check(n > 0, "S3", name, "-", fmt.Sprintf("%d exit contexts over all failure placements", n))
+			}
+		}
+	}
 	// S4
 	cl, _ := parseCmpLabel(roles.TrigLabel)
 	lim := strings.TrimPrefix(roles.TrigLimit, "f:")
